@@ -226,3 +226,91 @@ def c07_wrapper_isolation(has_main: bool, alt: bool, nf: int, nc: int, fm: bool,
     post: _ >= 0
     """
     return _check(has_main, alt, nf, nc, fm, [ff0, ff1], [fc0, fc1], skip_failed, nct)
+
+
+# --------------------------------------------------------------------------
+# C02: timeout-driven retries only lower the complexity limits
+# --------------------------------------------------------------------------
+class _CP:
+    """stands in for CleavageParams (copied with copy.copy by the reducer)"""
+
+    def __init__(self, mvpn, avpm):
+        self.max_variants_per_node = mvpn
+        self.additional_variants_per_misc = avpm
+        self.other = 'KEEP'
+
+
+def _reducer(n_timeouts, mv0, mv1, n_mv, av0, av1, n_av):
+    """the wrapper times out n_timeouts times, then succeeds; user-supplied limit tuples of length
+    n_mv / n_av"""
+    mvs = tuple([mv0, mv1][:n_mv])
+    avs = tuple([av0, av1][:n_av])
+    seen = []
+
+    def fake_wrapper(**dispatch):
+        p = dispatch['cleavage_params']
+        seen.append((p.max_variants_per_node, p.additional_variants_per_misc, p.other,
+                     {k: v for k, v in dispatch.items() if k != 'cleavage_params'}))
+        if len(seen) <= n_timeouts:
+            raise TimeoutError('t')
+        return 'RESULT'
+
+    dispatch = {'tx_id': 'T', 'cleavage_params': _CP(mvs[0], avs[0]), 'max_variants_per_node': mvs,
+                'additional_variants_per_misc': avs, 'payload': 'X'}
+    exhausted = False
+    with patched((cvp, 'call_variant_peptides_wrapper', fake_wrapper),
+                 (cvp, 'get_logger', lambda: NullLogger())):
+        try:
+            res = cvp.caller_reducer(dispatch)
+        except ValueError:
+            exhausted = True
+            res = None
+    # the caller's dispatch and parameters are never mutated
+    if dispatch['cleavage_params'].max_variants_per_node != mvs[0] \
+            or dispatch['cleavage_params'].additional_variants_per_misc != avs[0]:
+        return -1
+    for k, (mv, av, other, rest) in enumerate(seen):
+        if other != 'KEEP' or rest['payload'] != 'X' or rest['tx_id'] != 'T':
+            return -2              # a retry changed something other than the two complexity limits
+        if k == 0:
+            if (mv, av) != (mvs[0], avs[0]):
+                return -3
+            continue
+        pmv, pav = seen[k - 1][0], seen[k - 1][1]
+        want_mv = mvs[k] if k < len(mvs) else None
+        if want_mv is not None:
+            if mv != want_mv:
+                return -4          # retry does not use the next user-supplied limit
+        elif mv != pmv - 1 or mv <= 0:
+            return -5              # beyond the supplied limits each retry lowers the limit by one, never to <= 0
+        want_av = avs[k] if k < len(avs) else 0
+        if av != want_av:
+            return -6              # additional-variants limit not the next supplied value / 0
+    if exhausted:
+        return OK if len(seen) <= n_timeouts else -7
+    if res != 'RESULT' or len(seen) != n_timeouts + 1:
+        return -8                  # a partial / invented result was returned
+    return OK
+
+
+@cond('C02', bounds='caller_reducer with 0..3 consecutive timeouts, user-supplied limit tuples of length 1..2 with '
+      'UNBOUNDED symbolic values', encodes=['moPepGen.cli.call_variant_peptide.caller_reducer'],
+      stubs=['call_variant_peptides_wrapper -> times out k times then returns', 'get_logger'],
+      codes={-1: "the caller's dispatch was mutated by a retry",
+             -2: 'a retry changed something other than the two complexity limits',
+             -3: 'first attempt does not use the first supplied limits',
+             -4: 'a retry does not use the next user-supplied max-variants-per-node',
+             -5: 'a retry did not lower max-variants-per-node',
+             -6: 'a retry does not use the next supplied additional-variants-per-misc (or 0)',
+             -7: 'retries continued after the limits were exhausted',
+             -8: 'result returned is not the result of the first successful attempt'},
+      shim=False, timeout=300)
+def c02_timeout_retries(n_timeouts: int, mv0: int, mv1: int, n_mv: int, av0: int, av1: int,
+                        n_av: int) -> int:
+    """
+    pre: 0 <= n_timeouts <= 3
+    pre: 1 <= n_mv <= 2 and 1 <= n_av <= 2
+    pre: mv0 >= 1 and mv1 >= 1 and av0 >= 0 and av1 >= 0
+    post: _ >= 0
+    """
+    return _reducer(n_timeouts, mv0, mv1, n_mv, av0, av1, n_av)
